@@ -1,6 +1,7 @@
 package main
 
 import (
+	"strings"
 	"bytes"
 	"encoding/binary"
 	"fmt"
@@ -225,6 +226,11 @@ func (s *c02State) try(frame []byte) {
 		s.fail("C02/count-data-mismatch/"+tn, fmt.Sprintf("Count %d but Data has %d bytes", fc.Count, len(fc.Data)), inA)
 		return
 	}
+	if *go9p.Akaros && fc.Type == wire.Rerror {
+		// with the Akaros option the library's PackRerror puts the error number in front
+		// of the text: the packet it makes is not the one that was decoded, by design
+		return
+	}
 	// re-encode with the library's own constructors and decode again
 	out := go9p.NewFcall(uint32(size + 64))
 	if err := packWith(out, ma, s.dotu); err != nil {
@@ -245,6 +251,79 @@ func (s *c02State) try(frame []byte) {
 	if d := cmpFcall(ma, again, s.dotu); d != "" {
 		s.fail("C02/reencode-fields/"+tn, "re-encoded packet decodes differently: "+d, inA)
 	}
+}
+
+// c02BaseMsgs: the messages the last call of c02Bases encoded
+var c02BaseMsgs []*wire.Msg
+
+// c02StringSweep: well-formed variants of the base messages in which one string field
+// at a time has every length 0..40 (a check that looks at the k-th byte of a text is
+// wrong for texts of exactly k bytes only).
+func c02StringSweep(dotu bool) [][]byte {
+	var out [][]byte
+	seen := map[string]bool{}
+	for _, m := range c02BaseMsgs {
+		base := wire.Encode(m, dotu)
+		for k := 0; k <= 40; k++ {
+			txt := strings.Repeat("e", k)
+			if k > 4 {
+				txt = "0A1F " + strings.Repeat("e", k-5) // looks like a number and a text
+			}
+			for f := 0; f < 14; f++ {
+				c := *m
+				c.Wname = append([]string{}, m.Wname...)
+				switch f {
+				case 0:
+					c.Version = txt
+				case 1:
+					c.Uname = txt
+				case 2:
+					c.Aname = txt
+				case 3:
+					c.Ename = txt
+				case 4:
+					c.Name = txt
+				case 5:
+					c.Ext = txt
+				case 6:
+					c.Stat.Name = txt
+				case 7:
+					c.Stat.Uid = txt
+				case 8:
+					c.Stat.Gid = txt
+				case 9:
+					c.Stat.Muid = txt
+				case 10:
+					c.Stat.Ext = txt
+				case 11:
+					if len(c.Wname) == 0 {
+						continue
+					}
+					c.Wname[0] = txt
+				case 12:
+					if len(c.Wname) < 2 {
+						continue
+					}
+					c.Wname[len(c.Wname)-1] = txt
+				case 13:
+					if k > 16 {
+						continue
+					}
+					c.Wname = nil
+					for i := 0; i < k; i++ {
+						c.Wname = append(c.Wname, "n")
+					}
+				}
+				b := wire.Encode(&c, dotu)
+				if bytes.Equal(b, base) || seen[string(b)] {
+					continue
+				}
+				seen[string(b)] = true
+				out = append(out, b)
+			}
+		}
+	}
+	return out
 }
 
 func c02Bases(g c01Gen, dotu bool) [][]byte {
@@ -272,7 +351,9 @@ func c02Bases(g c01Gen, dotu bool) [][]byte {
 		if len(b) <= 400 {
 			out = append(out, b)
 		}
+		c02BaseMsgs = append(c02BaseMsgs, m)
 	}
+	c02BaseMsgs = nil
 	pick(func(d []any) any { return d[0] })
 	pick(func(d []any) any { return d[1%len(d)] })
 	pick(func(d []any) any { return d[2%len(d)] })
@@ -310,7 +391,11 @@ func c02Scenario(g c01Gen, dotu bool) Scenario {
 			}
 			s.try(b)
 		}
-		for bi, base := range c02Bases(g, dotu) {
+		bases := c02Bases(g, dotu)
+		for _, b := range c02StringSweep(dotu) {
+			try(b)
+		}
+		for bi, base := range bases {
 			L := len(base)
 			if bi == 0 {
 				s.res.Samples = append(s.res.Samples, fmt.Sprintf("base %x: all truncations, declared sizes 0..%d+big, byte substitutions, u16/u32 overwrites at every offset", base, L+8))
@@ -535,18 +620,35 @@ func c02StatScenario(dotu bool) Scenario {
 	}}
 }
 
+// withAkaros runs a scenario with the library's global "Akaros extensions" option
+// switched on (a process-wide flag that changes how errors and symbolic links travel).
+func withAkaros(sc Scenario) Scenario {
+	run := sc.Run
+	sc.Name += " akaros-option=on"
+	sc.Run = func(c *RunCtx) *Result {
+		old := *go9p.Akaros
+		*go9p.Akaros = true
+		defer func() { *go9p.Akaros = old }()
+		return run(c)
+	}
+	return sc
+}
+
 func c02Scenarios(tier string) []Scenario {
 	var out []Scenario
 	for _, g := range c01Gens() {
 		for _, dotu := range []bool{false, true} {
 			out = append(out, c02Scenario(g, dotu))
+			if tier == "thorough" || g.typ == wire.Rerror || g.typ == wire.Rstat || g.typ == wire.Twstat || g.typ == wire.Tcreate {
+				out = append(out, withAkaros(c02Scenario(g, dotu)))
+			}
 		}
 	}
 	for _, dotu := range []bool{false, true} {
 		for lo := 0; lo < 256; lo += 32 {
 			out = append(out, c02TinyScenario(dotu, lo, lo+31))
 		}
-		out = append(out, c02StatScenario(dotu))
+		out = append(out, c02StatScenario(dotu), withAkaros(c02StatScenario(dotu)))
 	}
 	return out
 }
@@ -554,7 +656,7 @@ func c02Scenarios(tier string) []Scenario {
 func init() {
 	register(&Property{ID: "C02", Level: "exploration",
 		Technique: "bounded-exhaustive enumeration of packet mutations (truncations, declared sizes, byte substitutions, length-field overwrites, all tiny frames)",
-		Rule:      "for up to 5 canonical packets per type and dialect: every truncation (with and without adjusted size field), every declared size 0..len+8 and extremes, every byte value at every offset (packets <= 96 bytes; boundary values otherwise), 11 u16 and 11 u32 values written at every offset, all 65536 values of the Twalk / Rwalk element counts, well-formed walks of 0..600 (and 1000..5041) elements and bodies one byte short / long of them; every frame of header + <=3 body bytes over {00,01,02,7f,ff} for all 256 type bytes; stat records likewise; each input decoded twice with different bytes after the declared size. distinct = distinct byte strings",
+		Rule:      "for up to 5 canonical packets per type and dialect: every truncation (with and without adjusted size field), every declared size 0..len+8 and extremes, every byte value at every offset (packets <= 96 bytes; boundary values otherwise), 11 u16 and 11 u32 values written at every offset, all 65536 values of the Twalk / Rwalk element counts, every string field with every length 0..40; well-formed walks of 0..600 (and 1000..5041) elements and bodies one byte short / long of them; every frame of header + <=3 body bytes over {00,01,02,7f,ff} for all 256 type bytes; stat records likewise; each input decoded twice with different bytes after the declared size; Rerror, Rstat, Twstat, Tcreate and stat records (thorough: everything) also with the library's global Akaros option on. distinct = distinct byte strings",
 		Assumptions: []string{"allocation is measured with runtime/metrics and confirmed with runtime.MemStats when above 8 KiB + 16*len(input)"},
 		Scenarios:   c02Scenarios, QuickS: 100, ThoroughS: 900})
 }
